@@ -3,10 +3,10 @@
      prqlc-parser/src/parser/mod.rs     parse_lr_to_pr: map_span (token indices -> byte offsets of token spans)
      prqlc-parser/src/parser/expr.rs    interpolation(): interpolation::parse(string, span + 2)
      prqlc-parser/src/parser/interpolation.rs  span_base.start + e.span().start
-     prqlc/src/error_message.rs         composed / compose_location (ariadne::Source, CHARACTER offsets;
-                                        a span whose source is not in the tree is removed: 7cb9d46)
+     prqlc/src/error_message.rs         composed / compose_location (byte span -> character span once: d3106b1; ariadne::Source
+                                        counts characters; a span whose source is not in the tree is removed: 7cb9d46)
      prqlc/src/lib.rs                   SourceTree::single / new / From<S>, prql_to_tokens (errors composed: d650e1d)
-     prqlc/src/parser.rs                parse_source (lexer errors carry the id of the file)
+     prqlc/src/parser.rs                parse_source, lexer_errors_to_byte_spans (lexer errors: id of the file, re-based to bytes)
      prqlc/src/semantic/resolver/functions.rs  fold_function (error of a std body moved to the call site: 7cb9d46)
      ariadne-0.5.1/src/source.rs        Source::from, get_offset_line
      prqlc-parser/src/error.rs          Display for Reason
@@ -117,11 +117,23 @@ Definition compose_location (s : source) (sp : span) : option location :=
   | None => None
   end.
 
-(* one iteration of ErrorMessages::composed, as (span', location) of the message afterwards:
+(* `composed` first turns the span -- byte offsets, like the spans of tokens and of the AST -- into character offsets:
+   `text.get(..byte).map(|s| s.chars().count())` for both ends; the span is left alone when an end is inside a code point
+   or past the text (d3106b1) *)
+Definition to_char (s : source) (b : nat) : option nat :=
+  match char_of_byte s b with Ret k => Some k | _ => None end.
+Definition span_to_chars (s : source) (sp : span) : span :=
+  match to_char s (sp_start sp), to_char s (sp_end sp) with
+  | Some a, Some b => Span a b (sp_src sp)
+  | _, _ => sp
+  end.
+
+(* one iteration of ErrorMessages::composed, as (span', location) of the message afterwards (for a message that has
+   no location yet: one that has is skipped, so a second `composed` does not convert again):
      no span                      -> message left alone;
      source id not in the tree    -> `e.span = None; continue` (the span cannot be interpreted by the caller);
-     otherwise location := compose_location, and `assert!(e.location.is_some(), ..)`; then compose_display builds
-     an ariadne Label over span.start..span.end, which asserts start <= end.
+     otherwise span := span_to_chars, location := compose_location, and `assert!(e.location.is_some(), ..)`; then
+     compose_display builds an ariadne Label over span.start..span.end, which asserts start <= end.
    (`cache.fetch` cannot fail for a tree built by SourceTree::single/new: every path of source_ids is a key of sources.) *)
 Definition composed_one (tree : list (nat * source)) (sp : option span) : out (option span * option location) :=
   match sp with
@@ -130,10 +142,11 @@ Definition composed_one (tree : list (nat * source)) (sp : option span) : out (o
       match find (fun p => Nat.eqb (fst p) (sp_src sp)) tree with
       | None => Ret (None, None)
       | Some (_, s) =>
-          match compose_location s sp with
+          let sp' := span_to_chars s sp in
+          match compose_location s sp' with
           | Some l =>
               (* compose_display: ariadne-0.5.1 Label::new asserts `span.start() <= span.end()` ("Label start is after its end") *)
-              if Nat.ltb (sp_end sp) (sp_start sp) then Panic else Ret (Some sp, Some l)
+              if Nat.ltb (sp_end sp') (sp_start sp') then Panic else Ret (Some sp', Some l)
           | None => Panic
           end
       end
@@ -177,48 +190,23 @@ Definition tree_of_files (files : list (N * source)) : list (nat * source) :=
   flat_map (fun e => match tree_source files (fst e) with Some s => [(N.to_nat (fst e), s)] | None => [] end)
            (tree_entries 0 files).
 
-(* a lexer error as the caller sees it: convert_lexer_error with the id of the file, then `composed` against a
-   tree in which that id names the file (parse_source + prql_to_pl_tree's composed; prql_to_tokens).
+(* parser.rs lexer_errors_to_byte_spans: the lexer reports character offsets; every span that reaches `composed` counts
+   bytes.  `source.is_ascii()` -> unchanged; else `char_indices().nth(n).map_or(source.len(), ..)` = byte_of_char *)
+Definition lexer_error_to_byte_span (s : source) (sp : span) : span :=
+  if forallb is_ascii s then sp
+  else Span (byte_of_char s (sp_start sp)) (byte_of_char s (sp_end sp)) (sp_src sp).
+
+(* a lexer error as the caller sees it: convert_lexer_error with the id of the file (character span), re-based to bytes
+   (parse_source / prql_to_tokens), then `composed` against a tree in which that id names the file.
    Result: (span', location, found). *)
 Definition lexer_error_reported (tree : list (nat * source)) (s : source) (bs be sid : nat)
   : out (option span * option location * source) :=
   bind (convert_lexer_error s bs be sid) (fun p =>
-  bind (composed_one tree (Some (fst p))) (fun r => Ret (r, snd p))).
+  bind (composed_one tree (Some (lexer_error_to_byte_span s (fst p)))) (fun r => Ret (r, snd p))).
 
 Definition prql_to_tokens_error (s : source) (bs be : nat) : out (option span * option location * source) :=
   let tree := source_tree_single s in
   lexer_error_reported tree s bs be (min_source_id tree).
-
-(* ---- PREPARED for fixes/F9-byte-spans-converted-in-composed.diff (not in /repo): the repaired pipeline.
-   `composed` converts the byte span to a character span first (`text.get(..byte).map(|s| s.chars().count())`, left alone
-   when an end is off a boundary or past the text), parse_source / prql_to_tokens turn the lexer's character spans into
-   byte spans (`char_indices().nth(n).map_or(len, ..)` = byte_of_char) so that every span that reaches `composed` counts
-   bytes.  A message that already has a location is skipped (no second conversion); the model is one pass. *)
-Definition to_char (s : source) (b : nat) : option nat :=
-  match char_of_byte s b with Ret k => Some k | _ => None end.
-Definition composed_one_fixed (tree : list (nat * source)) (sp : option span) : out (option span * option location) :=
-  match sp with
-  | None => Ret (None, None)
-  | Some sp =>
-      match find (fun p => Nat.eqb (fst p) (sp_src sp)) tree with
-      | None => Ret (None, None)
-      | Some (_, s) =>
-          let sp' := match to_char s (sp_start sp), to_char s (sp_end sp) with
-                     | Some a, Some b => Span a b (sp_src sp)
-                     | _, _ => sp
-                     end in
-          match compose_location s sp' with
-          | Some l => if Nat.ltb (sp_end sp') (sp_start sp') then Panic else Ret (Some sp', Some l)
-          | None => Panic
-          end
-      end
-  end.
-Definition lexer_error_to_byte_span (s : source) (sp : span) : span :=
-  Span (byte_of_char s (sp_start sp)) (byte_of_char s (sp_end sp)) (sp_src sp).
-Definition lexer_error_reported_fixed (tree : list (nat * source)) (s : source) (bs be sid : nat)
-  : out (option span * option location * source) :=
-  bind (convert_lexer_error s bs be sid) (fun p =>
-  bind (composed_one_fixed tree (Some (lexer_error_to_byte_span s (fst p)))) (fun r => Ret (r, snd p))).
 
 (* Resolver::fold_function: an error of the inner fold whose span is in std.prql (source id 0) is given the span of
    the call when that is in the user's source (`e.with_span(span)` overwrites) *)
@@ -238,15 +226,9 @@ Fixpoint line_start (lens : list nat) (l : nat) : nat :=
   | S _, [] => 0
   end.
 
-(* ---- what a consumer sees for a parser error: the byte span read as character offsets ---- *)
-Definition parser_error_location (s : source) (toks : list (nat * nat)) (i j : nat) : out (option location) :=
-  bind (composed_one [(1, s)] (Some (map_span toks i j 1))) (fun r => Ret (snd r)).
-
-(* ---- what it should be: the location of the characters at those byte offsets ---- *)
-Definition byte_span_location (s : source) (sp : span) : out (option location) :=
-  bind (char_of_byte s (sp_start sp)) (fun cs =>
-  bind (char_of_byte s (sp_end sp)) (fun ce =>
-  bind (composed_one [(sp_src sp, s)] (Some (Span cs ce (sp_src sp)))) (fun r => Ret (snd r)))).
+(* ---- what a consumer sees for a parser error over tokens i..j of the file with id 1 ---- *)
+Definition parser_error_reported (s : source) (toks : list (nat * nat)) (i j : nat) : out (option span * option location) :=
+  composed_one [(1, s)] (Some (map_span toks i j 1)).
 
 (* all characters before character offset k are ASCII *)
 Definition ascii_before (s : source) (k : nat) : bool := forallb is_ascii (firstn k s).
